@@ -125,6 +125,14 @@ func runC06(r *Run) {
 			if s.Width == 0 || s.Kind == "store" || s.Kind == "load" || s.Hi == nil {
 				continue
 			}
+			if _, _, _, isAcc := accessorCall(s.In); !isAcc {
+				if strings.HasPrefix(s.Kind, "Put") || strings.HasPrefix(s.Kind, "Uint") {
+					// a hand-written big-endian group: all of its bytes are present by construction (LAYOUT)
+					r.Analysed(fn)
+					wd.Instance(fmt.Sprintf("%s|%s%s", fnName(fn), s.Kind, s.Range()), true, map[string]string{"fn": fnName(fn), "site": describeSite(s) + " (byte-wise)", "slice_width": fmt.Sprint(s.Width)})
+				}
+				continue
+			}
 			// only when the operand itself is a slice expression
 			buf := callArgs(s.In)[1]
 			if _, isSl := buf.(*ssa.Slice); !isSl {
@@ -222,10 +230,16 @@ func runC06(r *Run) {
 	checkAccept(r, ac, getM)
 	ac.Done()
 
+	sa := r.Rule("C06.setaccept", "a typed setter refuses a value only on its reviewed conditions (IP length not 4/16, the reviewed length limits, an error of the setter it delegates to): every other value of the type is encoded", 10)
+	checkSetterAccept(r, sa, cl)
+	sa.Done()
+
 	// ---- v4 mapped
 	v4 := r.Rule("C06.v4mapped", "the IPv4-mapped test inspects all of bytes 0..11 (ten zero bytes, then 0xff 0xff)", 1)
 	checkV4Mapped(r, v4, le)
 	v4.Done()
+	// the reviewed length limits of the setters: a valid value must not be refused (shared with C09)
+	r.Borrow("C09", map[string]string{"C09.limits": "C06.limits"})
 }
 
 func checkAddrTables(r *Run, rc *RuleCtx, le *linEval, tn string, xored bool, add *ssa.Function) {
@@ -654,6 +668,40 @@ func checkUnknownAttrs(r *Run, rc *RuleCtx, le *linEval, add *ssa.Function) {
 			okW = true
 		}
 	}
+	// byte-wise form: v = append(v, byte(t>>8), byte(t)) in the loop over the list - with the buffer
+	// starting empty (below) entry i lands at bytes [2i, 2i+2)
+	eachInstr(w, func(b *ssa.BasicBlock, i int, in ssa.Instruction) {
+		ap, ok := in.(*ssa.Call)
+		if !ok || !isBuiltinCall(ap, "append") || len(ap.Call.Args) != 2 {
+			return
+		}
+		lp := inLoop(loopsOf(w), b)
+		ph, isPhi := ap.Call.Args[0].(*ssa.Phi)
+		if lp == nil || !isPhi || ph.Block() != lp.Header {
+			return
+		}
+		elems := appendedElems(ap)
+		if len(elems) != 2 {
+			return
+		}
+		hi, okH := elems[0].(*ssa.Convert)
+		lo, okL := elems[1].(*ssa.Convert)
+		if !okH || !okL {
+			return
+		}
+		sh, isShift := hi.X.(*ssa.BinOp)
+		if !isShift || sh.Op != token.SHR || sh.X != lo.X {
+			return
+		}
+		if k, isC := constInt(sh.Y); !isC || k != 8 {
+			return
+		}
+		if wd, signed, okT := intWidth(lo.X.Type()); !okT || signed || wd != 16 {
+			return
+		}
+		rc.Instance("UNKNOWN-ATTRIBUTES|writer", true, map[string]int64{"entry_width": 2, "stride": 2})
+		okW = true
+	})
 	if !okW {
 		rc.Violation(w, w.Pos(), "UNKNOWN-ATTRIBUTES writer", "the value must be a packed list of 16-bit attribute types (entry i at bytes [2i, 2i+2))")
 	}
@@ -1064,4 +1112,258 @@ func countingLoopOver(lp *Loop, root ssa.Value, ia *ssa.IndexAddr) bool {
 	}
 	ln, ok := cmp.Y.(*ssa.Call)
 	return ok && isBuiltinCall(ln, "len") && ln.Call.Args[0] == root
+}
+
+// appendedElems: the element values of append(s, e0, e1, ...) in element order (nil when the variadic
+// argument is not a literal element list).
+func appendedElems(ap *ssa.Call) []ssa.Value {
+	sl, isSl := ap.Call.Args[1].(*ssa.Slice)
+	if !isSl || sl.Low != nil || sl.High != nil {
+		return nil
+	}
+	al, isAl := sl.X.(*ssa.Alloc)
+	if !isAl {
+		return nil
+	}
+	at, isArr := al.Type().(*types.Pointer).Elem().Underlying().(*types.Array)
+	if !isArr {
+		return nil
+	}
+	out := make([]ssa.Value, at.Len())
+	for _, u := range *al.Referrers() {
+		switch x := u.(type) {
+		case *ssa.IndexAddr:
+			k, isC := constInt(x.Index)
+			if !isC || k < 0 || k >= at.Len() {
+				return nil
+			}
+			for _, u2 := range *x.Referrers() {
+				st, isSt := u2.(*ssa.Store)
+				if !isSt || st.Addr != ssa.Value(x) || out[k] != nil {
+					return nil
+				}
+				out[k] = st.Val
+			}
+		case *ssa.Slice, *ssa.DebugRef:
+		default:
+			return nil
+		}
+	}
+	for _, v := range out {
+		if v == nil {
+			return nil
+		}
+	}
+	return out
+}
+
+// rejectGuards: the branch conditions of fn one of whose outcomes leads only to error returns while the
+// other can still succeed, each with the polarity under which the function rejects.
+type rejectGuard struct {
+	If   *ssa.If
+	Cond ssa.Value
+	When bool // rejects when Cond == When
+}
+
+func rejectGuardsOf(p *Prog, fn *ssa.Function) []rejectGuard {
+	var out []rejectGuard
+	for _, b := range fn.Blocks {
+		iff, ok := b.Instrs[len(b.Instrs)-1].(*ssa.If)
+		if !ok || fullyThreaded(b) {
+			continue
+		}
+		r0, r1 := edgeRejects(p, fn, iff, true), edgeRejects(p, fn, iff, false)
+		if r0 == r1 {
+			continue
+		}
+		out = append(out, rejectGuard{iff, iff.Cond, r0})
+	}
+	return out
+}
+
+// setterRejectClass classifies a reject guard of a typed setter:
+//
+//	"len(IP) <op> <k>"     a comparison of the length of (a slice derived from) the IP field with a constant
+//	"overflow"             the error result of CheckOverflow / CheckSize (a length limit)
+//	"error of <callee>"    an error propagated from another library function
+//	"other: <text>"        anything else
+func setterRejectClass(p *Prog, g rejectGuard) string {
+	cond, when := g.Cond, g.When
+	for {
+		if u, ok := cond.(*ssa.UnOp); ok && u.Op == token.NOT {
+			when = !when
+			cond = u.X
+			continue
+		}
+		break
+	}
+	// membership in a package-level table (reason, ok := errorReasons[code]; !ok)
+	if e, isE := cond.(*ssa.Extract); isE && e.Index == 1 {
+		if lk, isL := e.Tuple.(*ssa.Lookup); isL && lk.CommaOk {
+			if ld, isLd := lk.X.(*ssa.UnOp); isLd && ld.Op == token.MUL {
+				if gl, isG := ld.X.(*ssa.Global); isG {
+					if when {
+						return "in " + gl.Name()
+					}
+					return "not in " + gl.Name()
+				}
+			}
+		}
+	}
+	b, ok := cond.(*ssa.BinOp)
+	if !ok {
+		return "other: " + exprCanon(cond)
+	}
+	op := b.Op
+	// an attribute of a given type is present in the message (a.Type == AttrFingerprint while scanning)
+	if k, isK := constInt(b.Y); isK && (b.Op == token.EQL || b.Op == token.NEQ) {
+		if _, f := loadedField(stripConvs(b.X)); f != nil && f.Name() == "Type" {
+			if n := p.Named("RawAttribute"); n != nil && FieldVar(n, "Type") == f {
+				if (b.Op == token.EQL) == when {
+					return fmt.Sprintf("message has attribute %#04x", k)
+				}
+				return fmt.Sprintf("message has an attribute other than %#04x", k)
+			}
+		}
+		if fl, isF := stripConvs(b.X).(*ssa.Field); isF {
+			if n := p.Named("RawAttribute"); n != nil {
+				if st, isS := fl.X.Type().Underlying().(*types.Struct); isS && st.Field(fl.Field) == FieldVar(n, "Type") {
+					if (b.Op == token.EQL) == when {
+						return fmt.Sprintf("message has attribute %#04x", k)
+					}
+					return fmt.Sprintf("message has an attribute other than %#04x", k)
+				}
+			}
+		}
+	}
+	if !when {
+		inv := map[token.Token]token.Token{token.LSS: token.GEQ, token.LEQ: token.GTR, token.GTR: token.LEQ, token.GEQ: token.LSS, token.EQL: token.NEQ, token.NEQ: token.EQL}
+		if o, have := inv[op]; have {
+			op = o
+		} else {
+			return "other: !(" + exprCanon(cond) + ")"
+		}
+	}
+	// nil test of an error
+	if isNilConst(b.Y) || isNilConst(b.X) {
+		x := b.X
+		if isNilConst(b.X) {
+			x = b.Y
+		}
+		x = canonPhi(deref(x))
+		if lk, isL := x.(*ssa.Lookup); isL && !lk.CommaOk {
+			if ld, isLd := lk.X.(*ssa.UnOp); isLd && ld.Op == token.MUL {
+				if gl, isG := ld.X.(*ssa.Global); isG {
+					if op == token.EQL {
+						return "not in " + gl.Name()
+					}
+					return "in " + gl.Name()
+				}
+			}
+		}
+		var call *ssa.Call
+		switch y := x.(type) {
+		case *ssa.Call:
+			call = y
+		case *ssa.Extract:
+			call, _ = y.Tuple.(*ssa.Call)
+		}
+		if call != nil && op == token.NEQ {
+			if sc := call.Call.StaticCallee(); sc != nil && p.isLibFn(sc) {
+				if sc.Name() == "CheckOverflow" || sc.Name() == "CheckSize" {
+					return "overflow"
+				}
+				return "error of " + fnName(sc)
+			}
+		}
+		return "other: " + exprCanon(cond)
+	}
+	// len(IP-derived) against a constant
+	if k, isK := constInt(b.Y); isK {
+		if lc, isL := b.X.(*ssa.Call); isL && isBuiltinCall(lc, "len") {
+			var ipF *types.Var
+			for _, tn := range []string{"MappedAddress", "XORMappedAddress"} {
+				if n := p.Named(tn); n != nil {
+					if f := FieldVar(n, "IP"); f != nil && ipDerived(lc.Call.Args[0], f, 0) {
+						ipF = f
+					}
+				}
+			}
+			if ipF != nil {
+				return fmt.Sprintf("len(IP) %s %d", op, k)
+			}
+		}
+	}
+	return "other: " + exprCanon(cond)
+}
+
+// setterRejectReference: the reject conditions of the typed setters on the reviewed tree.  A setter
+// not listed must not reject at all.
+var setterRejectReference = map[string][]string{
+	"(*MappedAddress).AddToAs":   {"len(IP) != 4"},
+	"(XORMappedAddress).AddToAs": {"len(IP) != 4"},
+	"(ErrorCode).AddTo":          {"not in errorReasons"},
+	"(ErrorCodeAttribute).AddTo": {"overflow"},
+	"(TextAttribute).AddToAs":    {"overflow"},
+	"(MessageIntegrity).AddTo":   {"message has attribute 0x8028"},
+}
+
+func checkSetterAccept(r *Run, rc *RuleCtx, cl *closures) {
+	p := r.P
+	for _, fn := range cl.Setters {
+		if fn.Blocks == nil || errorResultIndex(fn) < 0 {
+			continue
+		}
+		r.Analysed(fn)
+		var got []string
+		gs := rejectGuardsOf(p, fn)
+		for _, g := range gs {
+			got = append(got, setterRejectClass(p, g))
+		}
+		sort.Strings(got)
+		ref, listed := setterRejectReference[fnName(fn)]
+		rc.Instance(fnName(fn)+"|rejects", true, map[string]interface{}{"setter": fnName(fn), "rejects_when": got, "reference": ref})
+		allowed := map[string]bool{}
+		for _, x := range ref {
+			allowed[x] = true
+		}
+		_ = listed
+		for i, g := range gs {
+			cls := setterRejectClass(p, g)
+			_ = i
+			if !allowed[cls] {
+				rc.Violation(fn, instrPos(g.If), "setter rejects when "+cls, fmt.Sprintf("the reviewed setter rejects only on %v: a value that is valid for the attribute (and that the reference encodes) is refused, or refused differently", ref))
+			}
+		}
+	}
+}
+
+// edgeRejects: every path that leaves the branch iff with the given outcome ends in a return whose
+// error result is known non-nil (explored from the branch itself, so the successor may be shared).
+func edgeRejects(p *Prog, fn *ssa.Function, iff *ssa.If, outcome bool) bool {
+	idx := errorResultIndex(fn)
+	if idx < 0 {
+		return false
+	}
+	first := true
+	n, bad := 0, false
+	q := &PathQuery{P: p, Fn: fn, From: iff, MaxStates: 6000}
+	q.Fold = func(cond ssa.Value, c *PathCtx) (bool, bool) {
+		if first && cond == iff.Cond {
+			first = false
+			return outcome, true
+		}
+		return false, false
+	}
+	q.AtReturn = func(ret *ssa.Return, st uint64, c *PathCtx) {
+		n++
+		if c.NilState(ret.Results[idx]) != -1 {
+			bad = true
+		}
+	}
+	q.Step = func(in ssa.Instruction, deferred bool, st uint64, c *PathCtx) (uint64, bool) {
+		return st, bad
+	}
+	q.Run()
+	return n > 0 && !bad && !q.Exhausted
 }
